@@ -31,6 +31,13 @@ def doc_ctor_calls(ctx, fi):
         if isinstance(n, ast.Call):
             d = dotted(n.func)
             full = resolve_import_name(fi.module, d) if d else None
+            fnkw = kwarg(n, "filename")
+            if fnkw is not None and not (full and full.startswith("synced_collections.")) and not (d or "").endswith("_StatePointDict") \
+                    and fi.module.name in ("signac.job", "signac.project") and isinstance(n.func, (ast.Call, ast.Name, ast.Attribute)):
+                t = canon(fnkw)
+                if "FN_DOCUMENT" in t or t.endswith(".filename") or t.endswith("._filename") or "fn_doc" in t:
+                    out.append((n, "synced_collections.<dynamic>." + (canon(n.func)[:30])))
+                    continue
             if full and full.startswith("synced_collections.") and full.split(".")[-1] in (
                     "BufferedJSONAttrDict", "JSONAttrDict", "JSONDict", "BufferedJSONDict", "MemoryBufferedJSONAttrDict", "MemoryBufferedJSONDict"):
                 out.append((n, full))
@@ -268,4 +275,14 @@ def c10_e(ctx: Ctx):
     return res
 
 
-RULES = [c10_a, c10_b, c10_c, c10_d, c10_e]
+@rule("C10-f")
+def c10_f(ctx: Ctx):
+    """Synchronisation writes job documents through the collection API: the document file stays excluded from the plain file copy unless the COPY strategy was asked for (from C13-b)."""
+    from .c13 import c13_b
+    res = [r for r in c13_b(ctx) if "exclude-doc" in r.construct]
+    for r in res:
+        r.rule = "C10-f"
+    return res
+
+
+RULES = [c10_a, c10_b, c10_c, c10_d, c10_e, c10_f]
